@@ -64,6 +64,7 @@ BOUNDS = {
         "split_max": 3,
         # Part B: (nCycles, burnSteps) shapes of the fault-free family / of the base fault enumeration /
         # the shape on which every write-path deviation also gets its fault enumeration
+        "iter_modes": [(None, False), (0, False), (2, True)],  # cap 1 runs the same schedule as the default cap
         "shapes_free": [(1, 0), (1, 2), (2, 1), (3, 1)],
         "shapes_free_base": [(1, 1), (2, 2)],  # only the members without deviation (keeps quick within budget)
         "shapes_enum": [(1, 0), (1, 2), (2, 1)],
@@ -77,6 +78,7 @@ BOUNDS = {
             ("por", 4, [("full3", 3)], [None, "-special", "x"], PRIMS, "interleave"),
         ],
         "split_max": 4,
+        "iter_modes": [(None, False), (0, False), (1, False), (2, True)],
         "shapes_free": [(1, 0), (1, 1), (1, 2), (1, 3), (2, 1), (2, 2), (2, 3), (3, 1), (3, 2), (3, 3)],
         "shapes_free_base": [],
         "shapes_enum": [(1, 0), (1, 1), (1, 2), (1, 3), (2, 1), (2, 2), (2, 3), (3, 1), (3, 2), (3, 3)],
@@ -1343,8 +1345,7 @@ def _cfg(nC, bs, tight, skip=(), maxIters=None, coupler=False, sync=False):
     return {"part": "B", "nCycles": nC, "burnSteps": bs, "tight": tight, "skip": list(skip), "maxIters": maxIters, "coupler": coupler, "sync": sync}
 
 
-# how many coupled iterations a node gets: (tightCouplingMaxNumIters, a never-converging coupler present)
-ITER_MODES = [(None, False), (0, False), (1, False), (2, True)]
+# "iter_modes": how many coupled iterations a node gets: (tightCouplingMaxNumIters, a never-converging coupler present)
 
 
 def fault_families(b):
@@ -1369,7 +1370,7 @@ def fault_families(b):
             if e in eff:
                 continue
             eff.add(e)
-            for cap, coup in ITER_MODES:
+            for cap, coup in b["iter_modes"]:
                 out.append(_cfg(nC, bs, True, skip, cap, coup))
         out.append(_cfg(nC, bs, True, sync=True))
         return out
